@@ -453,6 +453,10 @@ func checkInvalid(d *Desc, tag string) {
 	res.Add("invalidations", 1)
 	text := d.TOML()
 	cfg, err := safeParse(text)
+	if err != nil && strings.HasPrefix(err.Error(), "PANIC:") {
+		res.Violate("invalid-config-panics", strings.SplitN(tag, "@", 2)[0], fmt.Sprintf("a configuration with %s made ParseData panic instead of returning an error: %v", tag, err), map[string]interface{}{"invalidation": tag, "toml": text})
+		return
+	}
 	if err == nil {
 		_ = cfg
 		res.Violate("invalid-config-accepted", strings.SplitN(tag, "@", 2)[0], fmt.Sprintf("a configuration with %s was accepted", tag), map[string]interface{}{"invalidation": tag, "toml": text})
